@@ -52,7 +52,7 @@ func (m *ImportMap) Add(spec *ast.ImportSpec, pkg *types.Package) {
 
 // Find searches for an import by short name with the following priority:
 // 1. Explicit alias (highest priority)
-// 2. Package name (actual name from package declaration)
+// 2. Package name (actual name from package declaration), imports without alias first
 // 3. Exact match (e.g., "io" matches "io")
 // 4. Path component match (e.g., "bar" matches "foo/bar")
 // Returns nil if not found
@@ -69,7 +69,15 @@ func (m *ImportMap) Find(shortName string) *Import {
 		}
 	}
 
-	// Priority 2: Search by actual package name
+	// Priority 2: Search by actual package name. An import without explicit alias is
+	// bound to that name in the file; one with an alias (import _ "pkg" included) is not,
+	// so it is considered only after those - whatever the order of the import specs
+	for i := range *m {
+		imp := &(*m)[i]
+		if imp.Alias == "" && imp.PackageName != "" && imp.PackageName == shortName {
+			return imp
+		}
+	}
 	for i := range *m {
 		imp := &(*m)[i]
 		if imp.PackageName != "" && imp.PackageName == shortName {
